@@ -158,4 +158,38 @@ ESCAPE_RE = re.compile('|'.join(""",
         try:
             folders = self._fileinfo[ext]""",
          note='read-only archive accepts deletion'),
+    # ---- C07
+    dict(id='c07-copyset-live-iter', prop='C07', file='src/srctools/vmf.py',
+         old="""        cur_items: frozenset[T] = frozenset(self)
+
+        yield from cur_items""",
+         new="""        cur_items: frozenset[T] = frozenset(self)
+
+        yield from set.__iter__(self)""",
+         note='CopySet iterates the live set: fails only when a mutation lands while an iterator is alive'),
+    dict(id='c07-remove-ent-unnamed', prop='C07', file='src/srctools/vmf.py',
+         old="""        _remove_copyset(self.by_target, item['targetname'].casefold() or None, item)
+        if 'nodeid' in item:""",
+         new="""        if item['targetname']:
+            _remove_copyset(self.by_target, item['targetname'].casefold(), item)
+        if 'nodeid' in item:""",
+         note='removing an unnamed entity leaves it in by_target[None]'),
+    dict(id='c07-add-ents-lower', prop='C07', file='src/srctools/vmf.py',
+         old="""            self.by_class[item['classname'].casefold()].add(item)
+            self.by_target[item['targetname', ''].casefold() or None].add(item)""",
+         new="""            self.by_class[item['classname'].lower()].add(item)
+            self.by_target[item['targetname', ''].lower() or None].add(item)""",
+         note='add_ents folds with lower(): differs from casefold() only for characters like ß'),
+    dict(id='c07-spawn-reclass', prop='C07', file='src/srctools/vmf.py',
+         old="""                if str_val.casefold() != 'worldspawn':
+                    self['classname'] = 'worldspawn'  # Revert the change.""",
+         new="""                if str_val.casefold() != 'worldspawn' and str_val:
+                    self['classname'] = 'worldspawn'  # Revert the change.""",
+         note='worldspawn can be given an empty class'),
+    dict(id='c07-setitem-readd-removed', prop='C07', file='src/srctools/vmf.py',
+         old="""            if self in self.map.entities or self is self.map.spawn:
+                self.map.by_target[str_val.casefold() or None].add(self)""",
+         new="""            if self in self.map.entities or self is self.map.spawn or orig_val:
+                self.map.by_target[str_val.casefold() or None].add(self)""",
+         note='renaming an entity that was removed from the map files it in by_target again'),
 ]
